@@ -1037,6 +1037,42 @@ def trusted(ctx: Ctx):
     ]
 
 
+ASSIGNED = ["B1+C1", "B2*2", "SUM(B1:C3)", "IF(B1>C1,\"x\",\"y\")", "-B3", "B2&\"t\"", "(B1+C2)*3", "MAX(B1,C1,2.5)", "B1/C2-1"]
+
+
+def assign_read_oracle(order: list, tmp: Path) -> list:
+    """Formulas given to cells through `cell.formula = ...` in one session, interleaved with reads (implementation only): what
+    the open document reports for each cell right away, and again after all assignments, is what the saved file reports."""
+    import warnings as _w
+    from numbers_parser import Document
+    fails = []
+    try:
+        doc = Document(num_rows=len(ASSIGNED) + 1, num_cols=3)
+        t = doc.sheets[0].tables[0]
+        for r in range(t.num_rows):
+            for c in range(3):
+                t.write(r, c, r + c + 1)
+        early = {}
+        with _w.catch_warnings():
+            _w.simplefilter("ignore")
+            for k in order:
+                t.cell(k, 0).formula = ASSIGNED[k]
+                early[k] = t.cell(k, 0).formula          # a read between two assignments
+            late = {k: t.cell(k, 0).formula for k in order}
+            p = tmp / "assigned.numbers"
+            doc.save(p)
+            back = Document(p).sheets[0].tables[0]
+            saved = {k: back.cell(k, 0).formula for k in order}
+    except Exception as e:  # noqa: BLE001
+        return [("assigned-formula-raises", f"{type(e).__name__}: {e}")]
+    for k in order:
+        for when, got in (("right after the assignment", early[k]), ("after all assignments", late[k])):
+            if got != saved[k]:
+                fails.append(("assigned-formula-open-differs-from-saved", f"cell({k},0).formula = {ASSIGNED[k]!r}: the open document reports {got!r} {when}, the saved file {saved[k]!r}"))
+                break
+    return fails
+
+
 def run(ctx: Ctx) -> int:
     trusted(ctx)
     quick = ctx.quick
@@ -1235,6 +1271,14 @@ def run(ctx: Ctx) -> int:
     ctx.extra["explanation"] = (
         "tree_render/raw_render/fixtures compare the extracted stack machine with the library's text; tree_nodes compares the "
         "model's compile with an independent serialiser; the oracle re-parses the library's text with an independent parser")
+    for i in range(6 if quick else 60):
+        order = list(range(len(ASSIGNED)))
+        ctx.rng.shuffle(order)
+        order = order[: ctx.rng.randrange(2, len(order) + 1)]
+        ctx.count("oracle-assigned-formulas")
+        ctx.nontrivial(("assigned", tuple(order)))
+        for sig, detail in assign_read_oracle(order, ctx.tmp):
+            ctx.oracle_fail(sig, {"kind": "assigned", "order": order}, detail)
     return common.finish(ctx, search)
 
 
@@ -1313,7 +1357,11 @@ def replay(path: str) -> int:
     if d.get("kind") == "failing-input":
         case = d["case"]
         impl = Impl()
-        if case.get("kind") == "tree":
+        if case.get("kind") == "assigned":
+            import tempfile
+            with tempfile.TemporaryDirectory() as td:
+                res = assign_read_oracle(case["order"], Path(td))
+        elif case.get("kind") == "tree":
             res = oracle_tree(impl, case)
         else:
             doc = open_doc(common.REPO / "tests" / "data" / case["file"])
